@@ -536,6 +536,30 @@ theorem orf_location_inside_record (fwd : Bool) (n : Nat) (offset L : Int) (s e 
     simp only [Bool.false_eq_true, if_false, if_true, Loc.start, Loc.end, minList, maxList, List.map_cons,
       List.map_nil, List.foldl_cons, List.foldl_nil] <;> omega
 
+/-- the default label of `create_feature_from_location` names the ORF by its coordinates, whatever the
+    strand and whatever the order of the parts: for the location `scan_orfs` reports on a ring it is
+    `allorf_<first base, 1-based>_<end>` with `first = base mod L` (the lowest coordinate of the part
+    that reaches the record's end, or of the single part) and `end` the end of the single part or of the
+    part after the origin — the same string for a forward and a reverse ORF at the same coordinates
+    (fixes/D13 kept the labels while putting reverse parts in transcription order) -/
+theorem orf_label_coordinates (recLen : Nat) (fwd : Bool) (n : Nat) (offset L : Int) (s e : Nat) (hL : 0 < L)
+    (hs : s < e) (hlen : orfLen s e ≤ L) :
+    orfLabel recLen (orfLoc fwd n offset (some L) s e) =
+      "allorf_" ++ fmtInt (toString recLen).length (orfBase fwd n offset s e % L + 1) ++ "_" ++
+        fmtInt (toString recLen).length
+          (if orfBase fwd n offset s e % L + orfLen s e ≤ L then orfBase fwd n offset s e % L + orfLen s e
+           else orfBase fwd n offset s e % L + orfLen s e - L) := by
+  rw [orfLoc_ring fwd n offset L s e hL hs hlen]
+  split
+  · simp only [orfLabel, Loc.start, Loc.end]
+  · cases fwd <;> simp [orfLabel, Loc.strand, dirStrand]
+
+/-- in particular the label does not depend on the strand -/
+theorem orf_label_strand_independent (recLen : Nat) (a c L : Int) :
+    orfLabel recLen (.compound [⟨0, c, .rev⟩, ⟨a, L, .rev⟩]) =
+      orfLabel recLen (.compound [⟨a, L, .fwd⟩, ⟨0, c, .fwd⟩]) := by
+  simp [orfLabel, Loc.strand]
+
 /-! ### 5c. "each with a translation matching its location" -/
 
 /-- the regenerated Biopython codon tables 1 and 11 (the ones antiSMASH records use) translate every
@@ -691,6 +715,9 @@ example : findIntergenic 0 100 [⟨20, 100⟩, ⟨0, 15⟩] 6 0 = [] := by decid
 /-- the returned order: the reverse-strand ORF over the origin sorts first, whatever its coordinates -/
 example : sortLocs [.simple ⟨5, 20, .fwd⟩, .compound [⟨0, 8, .rev⟩, ⟨50, 60, .rev⟩], .simple ⟨2, 11, .fwd⟩]
     = [.compound [⟨0, 8, .rev⟩, ⟨50, 60, .rev⟩], .simple ⟨2, 11, .fwd⟩, .simple ⟨5, 20, .fwd⟩] := by decide
+/-- labels: zero-padded to the digits of the record length, 1-based start; reverse wrapped = forward wrapped -/
+example : orfLabel 60 (.simple ⟨3, 18, .fwd⟩) = "allorf_04_18" := by decide
+example : orfLabel 60 (.compound [⟨0, 8, .rev⟩, ⟨50, 60, .rev⟩]) = "allorf_51_08" := by decide
 example : sortedByStart [⟨0, 110⟩, ⟨50, 105⟩] := (sortedByStartB_iff _).1 (by decide)
 
 end ASV.C15
